@@ -55,7 +55,7 @@ pub fn run(args: &Args) -> i32 {
             for i in hist {
                 let _ = w.alpha[*i].1.run(db.as_mut());
             }
-            let before = dump(db.as_ref(), true)?.ordered();
+            let before = dump(db.as_ref(), c02)?.ordered();
             let pre = Shadow::from_files(&path, &walp);
             let log = record_events();
             let res = match last {
@@ -71,7 +71,7 @@ pub fn run(args: &Args) -> i32 {
                 a
             } else {
                 agdb::verif::clear_fs_hook();
-                let a = dump(db.as_ref(), true)?.ordered();
+                let a = dump(db.as_ref(), c02)?.ordered();
                 drop(db);
                 a
             };
@@ -144,7 +144,7 @@ pub fn run(args: &Args) -> i32 {
                     let _ = engine::take_enormous_allocation();
                     let r = catch(|| -> Result<String, (String, String)> {
                         let db = ov.open(&ipath).map_err(|e| ("open-failed".to_string(), format!("{} / {}", e.description, e.cause.map(|c| c.description).unwrap_or_default())))?;
-                        let d = dump(db.as_ref(), true).map_err(|e| ("read-failed".to_string(), e))?;
+                        let d = dump(db.as_ref(), c02).map_err(|e| ("read-failed".to_string(), e))?;
                         Ok(d.ordered())
                     });
                     let big = engine::take_enormous_allocation();
@@ -220,6 +220,10 @@ pub fn run(args: &Args) -> i32 {
                     continue;
                 }
                 for l in &lasts {
+                    // quick: on the 59-alias base only the steps that touch aliases (and close)
+                    if !thorough && w.bases[b].0 == "alias_map_near_rehash" && !matches!(l, Last::Close) && !matches!(l, Last::H(i) if w.alpha[*i].0.contains("alias")) {
+                        continue;
+                    }
                     items.push((*rv, b, p.clone(), l.clone()));
                 }
             }
